@@ -1,5 +1,5 @@
 (* Props/C18.v — C18: every reported size and offset is exact.  Chunk level (this file, growing). *)
-From PNA Require Import Base Crc32 Chunk BaseFacts ChunkFacts.
+From PNA Require Import Base Crc32 Codec Chunk Archive Entry BaseFacts ChunkFacts ArchiveFacts EntryFacts.
 Open Scope N_scope.
 
 Theorem C18_chunk_byte_length :
@@ -12,3 +12,16 @@ Theorem C18_chunk_read_consumes_its_length :
   forall bs c r, read_chunk_stream bs = Ok (c, r) -> wf_chunk c /\ bs = ser_chunk c ++ r.
 Proof. exact read_chunk_ok_inv. Qed.
 Print Assumptions C18_chunk_read_consumes_its_length.
+
+(* the byte count returned when adding an entry / entry part equals the bytes written *)
+Theorem C18_add_entry_count :
+  forall cs, Forall wf_chunk cs -> snd (add_chunks cs) = len (fst (add_chunks cs)).
+Proof. exact add_chunks_count. Qed.
+Print Assumptions C18_add_entry_count.
+
+(* an entry's compressed size equals the total of its data-chunk payloads *)
+Theorem C18_compressed_size :
+  forall cs e, parse_normal cs = Ok e ->
+  m_compressed (n_meta e) = fold_left N.add (map len (n_data e)) 0.
+Proof. exact compressed_size_sum. Qed.
+Print Assumptions C18_compressed_size.
